@@ -944,4 +944,3 @@ func c16OneK(rt *rapid.T, rec *verifx.Recorder, nIss int, auto bool, prevIss []i
 	}
 	return true
 }
-
